@@ -32,7 +32,7 @@ def expected_module(m, encname):
         items = list(g)
         if any(isinstance(v, OMD) for _, v in items):
             return True
-        keys = [k for k, _ in items]
+        keys = [str(k).upper() for k, _ in items]      # as they are written
         if len(keys) != len(set(keys)):
             return True
         for k, v in items:
@@ -152,6 +152,8 @@ def vjson_short(o):
 
 
 def shard(spec):
+    """Runs in a fresh process (state shared between encoder classes must show
+    the same way on every run); combos come in the order given."""
     mods, combos, reader = spec
     acc = Acc()
     for name, items in mods:
@@ -181,6 +183,9 @@ def plan(ctx, reader):
     default = [(e, {}) for e in impl.ENCODERS]
     for i in range(0, len(mods), 40):
         specs.append((mods[i:i + 40], default, reader))
+        # and in the opposite encoder order (a leak from one encoder class to another
+        # depends on which one sees a value first)
+        specs.append((mods[i:i + 40], list(reversed(default)), reader))
     # every single-option deviation on the full module set, every two-option deviation on a core
     dev1 = [(e, c) for e in impl.ENCODERS for c in modgen.configs(e, 1) if c]
     dev2 = [(e, c) for e in impl.ENCODERS for c in modgen.configs(e, 2) if len(c) == 2]
@@ -202,12 +207,18 @@ def plan(ctx, reader):
 
 def run(ctx, reader=READER, pid=PID):
     mods, specs, n1, n2 = plan(ctx, reader)
-    acc = ctx.pmap(shard, specs)
+    import multiprocessing
+    import random
+    random.Random(ctx.seed).shuffle(specs)
+    acc = Acc()
+    with multiprocessing.get_context("fork").Pool(16, maxtasksperchild=1) as pool:
+        for r in pool.imap_unordered(shard, specs):
+            acc.merge(r)
     cov = {
         "evaluations": acc.n, "distinct_nontrivial": acc.nontrivial,
         "rule": "%d modules (value alphabet of %d simple values x shapes top/sequence/set/nested/in-group/in-object, all "
                 "ordered pairs of a 12-value core in sequences and sets, %d key forms, wrap grid, all container trees with "
-                "<= %d nodes, mixed documents) x 4 encoders at default options; x %d single-option deviations (%s); x %d "
+                "<= %d nodes, mixed documents) x 4 encoders at default options (in both encoder orders, each shard in a fresh process); x %d single-option deviations (%s); x %d "
                 "two-option deviations on a core; reader = %s; non-trivial = the encoder did not refuse, the text loaded "
                 "and the module compared equal under R4 (each (module, encoder, configuration) is one distinct case)"
                 % (len(mods), len(modgen.simple_values()), len(modgen.KEYS), 3 if ctx.quick else 4, n1,
